@@ -27,6 +27,7 @@ def sgn(v, b): return v - (1 << b) if v >> (b - 1) else v
 
 class Unsupported(Exception): pass
 class MemError(Exception): pass
+CALL_REAL = object()      # returned by an external-function handler: run the function's own IR after all
 class PathEnd(Exception): pass      # a modelled noreturn (abort, assert fail, throw) ends this path
 class CxxThrow(Exception):
     """a C++ exception in flight: object address + mangled name of its std::type_info"""
@@ -220,6 +221,10 @@ class Exec:
         self.ext_prefix = [('_ZN4vfps7Display9printText', ext_noop)]      # logging is not the subject
         self.max_paths = 1500
         self.track_uninit = False    # optional: flag scalar loads from never-written stack bytes (allocas; re-poisoned by llvm.lifetime.start)
+        self.fork_guide = None       # optional: fork_guide(st, cond, true_block, false_block) -> None | True | False, asked before fork_filter
+        self.round_toint = False     # symbolic round/ceil/floor/fp-to-int as fresh mathematical integers (no enumeration of integer parts)
+        self.intsym = {}             # id of ToReal(k) term -> (term, k)
+        self.intarg = {}             # name of k -> (rounding function, its real argument)
         self.fork_filter = None      # optional: decide a genuine two-way fork (path-tree partitioning); returns None (explore both) | True | False
         self.time_budget = 150
 
@@ -760,7 +765,8 @@ class Exec:
                     cb = self.as_bool(c)
                     ft = self.feasible(st, cb); ff = self.feasible(st, z3.Not(cb))
                     if ft and ff:
-                        choice = self.fork_filter(st) if self.fork_filter else None
+                        choice = self.fork_guide(st, cb, ins['t'], ins['f']) if self.fork_guide else None
+                        if choice is None: choice = self.fork_filter(st) if self.fork_filter else None
                         if choice is None:
                             self.stats['forks'] += 1
                             o = st.fork(); o.pc.append(z3.Not(cb)); of = o.frames[-1]; self.goto(o, of, ins['f']); work.append(o)
@@ -830,6 +836,8 @@ class Exec:
                         if name.startswith(pfx): h = hh; break
                 if h is not None:
                     r = h(self, st, fr, args, ins)
+                    if r is CALL_REAL and name in self.m.funcs:
+                        self.call(st, name, args, ins['dst']); continue
                     if isinstance(r, Forks): self.apply_forks(st, work, r, ins['dst'])
                     elif ins['dst'] is not None: fr.loc[ins['dst']] = r
                 elif name.startswith('llvm.'):
@@ -967,6 +975,17 @@ class Exec:
             return iv & MASK(bits)
         tag = self.intof.get(v.get_id()) if hasattr(v, 'get_id') else None
         if tag is not None: return tag[1]
+        if self.round_toint and self.dom.name != 'fp':
+            t = self.intsym.get(v.get_id())
+            if t is not None: k = t[1]
+            else:
+                k = self.fresh_int(st, 'trunc'); kr = z3.ToReal(k); vz = self.dom.z(v)
+                st.pc.append(z3.Or(z3.And(vz >= 0, kr <= vz, vz < kr + 1), z3.And(vz < 0, kr - 1 < vz, vz <= kr)))
+            lo, hi = (-(1 << (bits - 1)), (1 << (bits - 1)) - 1) if signed else (0, (1 << bits) - 1)
+            rng = z3.And(k >= lo, k <= hi)
+            if self.feasible(st, z3.Not(rng)): self.note_ub(st, 'fp-to-int conversion may be out of range of the %d-bit target (excluded from the claim)' % bits)
+            st.pc.append(rng)
+            return z3.Int2BV(k, bits)
         alts = self.int_split(st, v, 'trunc')
         res = []
         for cons, k in alts:
@@ -982,7 +1001,17 @@ class Exec:
             if self.dom.name == 'fp' and base != 'floor': raise Unsupported('symbolic %s in the FP domain' % base)
             return self.round_sym(st, base, args[0])
         return self.dom.fn(name, args, bits)
+    def fresh_int(self, st, hint):
+        k = st.extra['nint'] = st.extra.get('nint', 0) + 1
+        return z3.Int('%s!%d' % (hint, k))
     def round_sym(self, st, base, x):
+        if self.round_toint and self.dom.name != 'fp':
+            xz = self.dom.z(x); k = self.fresh_int(st, base); kr = z3.ToReal(k); h = z3.RealVal('1/2')
+            if base == 'floor': st.pc.append(z3.And(kr <= xz, xz < kr + 1))
+            elif base == 'ceil': st.pc.append(z3.And(kr - 1 < xz, xz <= kr))
+            else: st.pc.append(z3.Or(z3.And(xz >= 0, kr - h <= xz, xz < kr + h), z3.And(xz < 0, kr - h < xz, xz <= kr + h)))     # half away from zero
+            self.intsym[kr.get_id()] = (kr, k); self.intarg[str(k)] = (base, xz)
+            return kr
         if base == 'floor':
             mk = (lambda k: np.float32(k)) if self.dom.name == 'fp' else (lambda k: Fraction(k))
             return Forks([(c, mk(k), None) for c, k in self.int_split(st, x, 'floor')])
@@ -1012,6 +1041,7 @@ class Exec:
             self.check_access(st, dst, n, 'memset')
             if st.wlog is not None: st.wlog.append((dst, n))
             for a in self._overlap(st, dst, n): st.sym.pop(a)
+            if self.track_uninit: self._mark_init(st, dst, n)
             self.write_bytes(st, dst, bytes([v & 255]) * n); return None
         if name.startswith(('llvm.umin', 'llvm.umax', 'llvm.smin', 'llvm.smax')):
             bits = ins['ty'].bits; k = name[5:9]
@@ -1157,6 +1187,7 @@ def ext_memset(ex, st, fr, args, ins):
     dst, v, n = args
     ex.check_access(st, dst, n, 'memset')
     for a in ex._overlap(st, dst, n): st.sym.pop(a)
+    if ex.track_uninit: ex._mark_init(st, dst, n)
     ex.write_bytes(st, dst, bytes([v & 255]) * n); return dst
 def ext_atomic_guard(ex, st, fr, args, ins): return 1
 def ext_cxa_alloc(ex, st, fr, args, ins): return ex.malloc(st, args[0] + 128) + 128
